@@ -21,7 +21,10 @@ Section Main.
   Notation eobj := (eobj c u ign).
 
   Lemma wf_model_wfr cl : wf_model u cl = true -> wfr u cl.
-  Proof. intros H. exists (S (length (u_metas u))). exact H. Qed.
+  Proof.
+    unfold wf_model. intros H. apply andb_true_iff in H as [Hin Hc].
+    exists (reach u (reach_fuel u) [cl] []). split; [exact Hc|apply existsb_N_in; exact Hin].
+  Qed.
 
   (* ---------------------------------------------------------------- parser half, closed *)
   Theorem parse_reads : forall n k cl o pevs,
